@@ -2548,6 +2548,12 @@ def _probe_slot(R: Real, k: int, fn, with_defaults: bool, graph_arg):
     }
 
 
+def a_details_spec(ans: dict, i: int):
+    """the model's row of slot i (what the probe is compared against), for a report"""
+    rows = ans.get("r", [])
+    return {k: rows[i].get(k) for k in ("key", "kind", "op", "details_none")} if i < len(rows) else None
+
+
 def check_slot_table(ctx) -> None:
     """Slot-table completeness: the model's table (`journal.meta`: where each wrapper is installed, how, with which
     order of effects - the flags are COMPUTED by running the model's runImpl - and which details expression) against
@@ -2621,7 +2627,15 @@ def check_slot_table(ctx) -> None:
                 ctx.disagree(f"slot table entry {i} ({m['key']}): installed as property?", "slot-table", m["install"], type(obj).__name__)
             variants = [(False, None), (True, None)] + ([(False, g_real)] if m["key"] == "Node.graph.fset" else [])
             for with_defaults, garg in variants:
-                probes.append((i, m, _probe_slot(R, i, fn, with_defaults, garg)))
+                # the real wrapper code object and its real details lambda run on stub arguments: whatever they raise
+                # there (e.g. a details expression that starts to iterate / index its argument) is a broken
+                # correspondence of this slot, never a harness crash
+                try:
+                    probes.append((i, m, _probe_slot(R, i, fn, with_defaults, garg)))
+                except Exception as e:  # noqa: BLE001
+                    ctx.disagree(f"slot {i} ({m['key']}): the installed wrapper / its details expression does something the model's details "
+                                 f"expression does not (raised on the probe arguments: {type(e).__name__}: {str(e)[:120]})",
+                                 {"slot": i, "key": m["key"], "with_defaults": with_defaults}, a_details_spec(ans, i), f"{type(e).__name__}")
     model_changed = sorted([m["cls"], m["attr"]] for m in model)
     if sorted(changed) != model_changed:
         only_real = [x for x in changed if x not in model_changed]
